@@ -24,6 +24,10 @@ RULE = ('Hypothesis-generated abstract templates over all tags with extra '
         '<= 3.  Non-trivial: >= 1 block tag with a continuation and >= 1 '
         'attribute value that needs quoting in at least one syntax (or an '
         'entity with modifiers).  Distinct = hash of (ast, styles).')
+RULE += (
+         "Also: multi-line sources that do not compile (C06's invalid "
+         'families at top level and inside blocks): exception class, '
+         'message and line number agree in the three spellings. ')
 ASSUMPTIONS = [
     'whether a name is written x or name=x (an expression "e" or expr="e") '
     'is recorded in the compiled attribute dictionary, so it is pinned per '
